@@ -294,6 +294,8 @@ struct Shared<'a> {
     hash: HashKind,
     midrun: &'a Mutex<(Vec<String>, u64)>,
     pool: &'a crate::par::Pool,
+    /// never-modified twin of the target (for relations between two collections)
+    twin: &'a Tgt,
 }
 
 fn midrun_inspect(sh: &Shared<'_>, thread: u8, after_op: usize) {
@@ -457,6 +459,11 @@ fn exec_op(ctx: &mut Ctx<'_>, op: &Op) -> Res {
     let pinned = ctx.facade == Facade::Pinned;
     match (sh.tgt, op) {
         /* ---------------- map, per-key ---------------- */
+        (Tgt::Map(m), Op::Get(k)) if pinned && *k % 3 == 0 => with_guard(ctx, |ctx, g| {
+            // `Index` on the reference type: panics for an absent key, by contract
+            let r = std::panic::catch_unwind(std::panic::AssertUnwindSafe(|| &m.with_guard(g)[&KeyQ(*k)] as *const Val)).ok();
+            Res::Opt(r.map(|v| vread(ctx, unsafe { &*v }, "index").0))
+        }),
         (Tgt::Map(m), Op::Get(k)) => with_guard(ctx, |ctx, g| {
             let r = if pinned { m.with_guard(g).get(&KeyQ(*k)).map(|v| v as *const Val) } else { m.get(&KeyQ(*k), g).map(|v| v as *const Val) };
             Res::Opt(r.map(|v| vread(ctx, unsafe { &*v }, "get").0))
@@ -635,6 +642,53 @@ fn exec_op(ctx: &mut Ctx<'_>, op: &Op) -> Res {
             let r = *s == *s;
             Res::Bool(r)
         }
+        (Tgt::Map(m), Op::Rel(kind)) => {
+            let Tgt::Map(o) = sh.twin else { unreachable!() };
+            let k = if *kind >= 5 { *kind - 5 } else { *kind };
+            let r = match k {
+                0 => *m == *o,
+                1 => *o == *m,
+                2 => m.pin() == o.pin(),
+                3 => *m == o.pin(),
+                _ => m.pin() == *o,
+            };
+            Res::Bool(r)
+        }
+        (Tgt::Set(s), Op::Rel(kind)) => {
+            let Tgt::Set(o) = sh.twin else { unreachable!() };
+            let r = match *kind {
+                0 => *s == *o,
+                1 => *o == *s,
+                2 => s.pin() == o.pin(),
+                3 => *s == o.pin(),
+                4 => s.pin() == *o,
+                5 => {
+                    if pinned {
+                        s.pin().is_subset(&o.pin())
+                    } else {
+                        let (g, og) = (s.guard(), o.guard());
+                        s.is_subset(o, &g, &og)
+                    }
+                }
+                6 => {
+                    if pinned {
+                        s.pin().is_superset(&o.pin())
+                    } else {
+                        let (g, og) = (s.guard(), o.guard());
+                        s.is_superset(o, &g, &og)
+                    }
+                }
+                _ => {
+                    if pinned {
+                        s.pin().is_disjoint(&o.pin())
+                    } else {
+                        let (g, og) = (s.guard(), o.guard());
+                        s.is_disjoint(o, &g, &og)
+                    }
+                }
+            };
+            Res::Bool(r)
+        }
         (Tgt::Map(m), Op::Extend(kv)) => {
             let items: Vec<(Key, Val)> = kv.iter().map(|(k, v)| (Key::new(*k), Val::new(*v))).collect();
             let mut mm: &Map = m;
@@ -687,6 +741,28 @@ fn exec_op(ctx: &mut Ctx<'_>, op: &Op) -> Res {
         (Tgt::Map(m), Op::IterAll(kind)) => with_guard(ctx, |ctx, g| {
             let mut items = Vec::new();
             match kind {
+                IterKind::Iter if pinned => {
+                    for (k, v) in m.with_guard(g).iter() {
+                        callback_tick(sh);
+                        let (kk, ki) = kread(ctx, k, "ref.iter");
+                        let vi = vread(ctx, v, "ref.iter").0;
+                        items.push(Item { k: kk, kinst: ki, vid: vi, clock: sched::now() });
+                    }
+                }
+                IterKind::Keys if pinned => {
+                    for k in m.with_guard(g).keys() {
+                        callback_tick(sh);
+                        let (kk, ki) = kread(ctx, k, "ref.keys");
+                        items.push(Item { k: kk, kinst: ki, vid: NONE, clock: sched::now() });
+                    }
+                }
+                IterKind::Values if pinned => {
+                    for v in m.with_guard(g).values() {
+                        callback_tick(sh);
+                        let vi = vread(ctx, v, "ref.values").0;
+                        items.push(Item { k: NONE, kinst: NONE, vid: vi, clock: sched::now() });
+                    }
+                }
                 IterKind::Iter => {
                     for (k, v) in m.iter(g) {
                         callback_tick(sh); // the code consuming the iterator may panic (C18)
@@ -792,6 +868,14 @@ fn exec_op(ctx: &mut Ctx<'_>, op: &Op) -> Res {
             ss.extend(items);
             Res::Unit
         }
+        (Tgt::Set(s), Op::IterAll(_)) if pinned => with_guard(ctx, |ctx, g| {
+            let mut items = Vec::new();
+            for k in s.with_guard(g).iter() {
+                let (kk, ki) = kread(ctx, k, "setref.iter");
+                items.push(Item { k: kk, kinst: ki, vid: 0, clock: sched::now() });
+            }
+            Res::Items { items, done: true }
+        }),
         (Tgt::Set(s), Op::IterAll(_)) => with_guard(ctx, |ctx, g| {
             let mut items = Vec::new();
             for k in s.iter(g) {
@@ -1218,6 +1302,16 @@ pub fn execute(p: &Program, mut setup: RunSetup, opts: &ExecOpts) -> RunResult {
     let callbacks = AtomicU64::new(0);
     let midrun = Mutex::new((Vec::new(), 0u64));
     let pool = crate::par::Pool::default();
+    let needs_twin = p.threads.iter().flatten().any(|o| matches!(o, Op::Rel(_)));
+    let twin = if needs_twin {
+        let t = build_target(&p.cfg);
+        prepopulate(&t, &p.cfg);
+        t
+    } else {
+        let mut c = p.cfg.clone();
+        c.capacity = 0;
+        build_target(&c)
+    };
     let shared = Shared {
         tgt: &tgt,
         callbacks: &callbacks,
@@ -1226,6 +1320,7 @@ pub fn execute(p: &Program, mut setup: RunSetup, opts: &ExecOpts) -> RunResult {
         hash: p.cfg.hash,
         midrun: &midrun,
         pool: &pool,
+        twin: &twin,
     };
     let n = p.threads.len();
     let outs: Vec<Mutex<Option<(Vec<OpRec>, Vec<GuardInterval>, Vec<String>, u64)>>> = (0..n).map(|_| Mutex::new(None)).collect();
@@ -1320,6 +1415,7 @@ pub fn execute(p: &Program, mut setup: RunSetup, opts: &ExecOpts) -> RunResult {
         // threads are stuck inside the map: nothing can be torn down. The caller reports and
         // exits the process.
         std::mem::forget(tgt);
+        std::mem::forget(twin);
         let l = LEDGER.lock().unwrap();
         return RunResult {
             history,
@@ -1358,6 +1454,10 @@ pub fn execute(p: &Program, mut setup: RunSetup, opts: &ExecOpts) -> RunResult {
     let dres = std::panic::catch_unwind(std::panic::AssertUnwindSafe(move || drop(tgt)));
     if let Err(e) = dres {
         teardown_panic = Some(format!("dropping the map panicked: {}", panic_msg(e)));
+    }
+    // the twin goes before the ledger is read: its instances are part of the drop accounting
+    if let Err(e) = std::panic::catch_unwind(std::panic::AssertUnwindSafe(move || drop(twin))) {
+        teardown_panic = Some(format!("dropping the twin collection panicked: {}", panic_msg(e)));
     }
     let alloc_rep = alloc::end();
     let mr = midrun.lock().unwrap().clone();
